@@ -44,13 +44,15 @@ def norm_model(s):
 def run_impl(b, wd, idx, src):
     path = os.path.join(wd, 'c%d.h' % idx)
     open(path, 'w').write(src)
-    p = subprocess.run([b['parse_file'], '-E', path], stdout=subprocess.PIPE, stderr=subprocess.PIPE, text=True, timeout=60)
+    if not os.path.exists(os.path.join(wd, 'present.h')):
+        open(os.path.join(wd, 'present.h'), 'w').write('/* present */\n')
+    p = subprocess.run([b['parse_file'], '-E', '-I', wd, '-S', wd, path], stdout=subprocess.PIPE, stderr=subprocess.PIPE, text=True, timeout=60, cwd=wd)
     return p.returncode, observe(p.stdout, p.stderr)
 
 
 def run_gcc(wd, idx, src):
     path = os.path.join(wd, 'c%d.h' % idx)
-    p = subprocess.run(['gcc', '-E', '-P', '-x', 'c++', '-std=c++23', path], stdout=subprocess.PIPE, stderr=subprocess.PIPE, text=True, timeout=60)
+    p = subprocess.run(['gcc', '-E', '-P', '-x', 'c++', '-std=c++23', '-I', wd, path], stdout=subprocess.PIPE, stderr=subprocess.PIPE, text=True, timeout=60, cwd=wd)
     return observe(p.stdout, p.stderr)
 
 
